@@ -304,11 +304,24 @@ def profile_diff(binname, items, base_out, profiles=("release",), args=()):
     return diffs, errors
 
 
+HANG_RC = -997
+PROBE_TIMEOUT = int(os.environ.get("VERIF_PROBE_TIMEOUT", "90"))
+
+
 def run_bin(path, lines, timeout=1200, args=()):
     """Feed one case per line, get one observation line per case."""
     inp = "\n".join(lines) + "\n"
-    p = subprocess.run([path] + list(args), input=inp, stdout=subprocess.PIPE, stderr=subprocess.PIPE,
-                       text=True, timeout=timeout, errors="replace")
+    try:
+        p = subprocess.run([path] + list(args), input=inp, stdout=subprocess.PIPE, stderr=subprocess.PIPE,
+                           text=True, timeout=timeout, errors="replace")
+    except subprocess.TimeoutExpired as e:
+        # a case on which the implementation does not return (a loop that no longer terminates) is handled
+        # like a process death: run_bin_robust isolates the case and records it as that case's observation
+        so = e.stdout if isinstance(e.stdout, str) else (e.stdout or b"").decode(errors="replace")
+        outl = so.split("\n")
+        if outl and outl[-1] == "":
+            outl.pop()
+        return HANG_RC, outl, "timeout"
     outl = p.stdout.split("\n")
     if outl and outl[-1] == "":
         outl.pop()
@@ -339,6 +352,9 @@ def run_bin_robust(path, lines, timeout=1200, args=()):
             out_all += out
             break
         crashes += 1
+        if rc == HANG_RC:
+            # bisection probes that contain the hanging case should not each wait for the full timeout
+            timeout = min(timeout, PROBE_TIMEOUT)
         if crashes > 4:
             # many cases kill the process: keep the ones found, mark the rest as not run
             out_all += ["HARNESS-PANIC -998"] * len(rest)
